@@ -241,6 +241,47 @@ static int wall(const ZI* const* registry, int n) {
   return 0;
 }
 
+// ---- transition buffers (C09-iii): every year 1999..2050 of every zone ----
+static int bufs_extended(int i0, int i1) {
+  for (int i = i0; i < i1 && i < zonedbx::kZoneRegistrySize; i++) {
+    const extended::ZoneInfo* zi = zonedbx::kZoneRegistry[i];
+    ExtendedZoneProcessor processor;
+    TimeZone tz = TimeZone::forZoneInfo(zi, &processor);
+    std::string out = "{\"zone\":" + jstr((const char*) ExtendedZone(zi).name());
+    char buf[128];
+    snprintf(buf, sizeof buf, ",\"bufSize\":%d,\"hookH2\":%d,\"years\":[", (int) zi->transitionBufSize,
+#ifdef ACE_TIME_VERIF_HAS_H2
+        1
+#else
+        0
+#endif
+        );
+    out += buf;
+    std::string traces = "],\"traces\":[";
+    for (int y = 1999; y <= 2050; y++) {
+      processor.resetTransitionHighWater();
+      g_pool_events.clear();
+      g_pool_record = true;
+      long t = days_from_civil(y, 7, 2) * 86400L;
+      TimeOffset off = tz.getUtcOffset((acetime_t) t);
+      g_pool_record = false;
+      int maxfree = 0;
+      for (size_t k = 0; k < g_pool_events.size(); k++) if (g_pool_events[k].free > maxfree) maxfree = g_pool_events[k].free;
+      snprintf(buf, sizeof buf, "%s[%d,%d,%d,%d]", y == 1999 ? "" : ",", y, (int) processor.getTransitionHighWater(), maxfree, (int) off.isError());
+      out += buf;
+      traces += (y == 1999 ? "[" : ",[");
+      for (size_t k = 0; k < g_pool_events.size(); k++) {
+        snprintf(buf, sizeof buf, "%s[%d,%d,%d,%d]", k ? "," : "", g_pool_events[k].op, g_pool_events[k].prior, g_pool_events[k].cand, g_pool_events[k].free);
+        traces += buf;
+      }
+      traces += "]";
+    }
+    out += traces + "]}";
+    puts(out.c_str());
+  }
+  return 0;
+}
+
 int main(int argc, char** argv) {
   if (argc < 3) { fprintf(stderr, "usage\n"); return 2; }
   std::string cmd = argv[1];
@@ -257,6 +298,7 @@ int main(int argc, char** argv) {
     if (basic) return scan<basic::ZoneInfo, BasicZoneProcessor, BasicZone>(zonedb::kZoneRegistry, zonedb::kZoneRegistrySize, i0, i1, grid, t0, t1, fs);
     return scan<extended::ZoneInfo, ExtendedZoneProcessor, ExtendedZone>(zonedbx::kZoneRegistry, zonedbx::kZoneRegistrySize, i0, i1, grid, t0, t1, fs);
   }
+  if (cmd == "bufs" && argc >= 5) return bufs_extended(atoi(argv[3]), atoi(argv[4]));
   if (cmd == "wall") {
     if (basic) return wall<basic::ZoneInfo, BasicZoneProcessor, BasicZone>(zonedb::kZoneRegistry, zonedb::kZoneRegistrySize);
     return wall<extended::ZoneInfo, ExtendedZoneProcessor, ExtendedZone>(zonedbx::kZoneRegistry, zonedbx::kZoneRegistrySize);
